@@ -612,6 +612,11 @@ def forms_cases(quick):
         "bytes=-1,-2,-3", "bytes=" + ",".join(f"{i}-{i}" for i in range(0, 24, 2)), "bytes=" + ", ".join(f"{i}-{i}" for i in range(0, 24, 2)),
         "bytes=4-,0-0", "bytes=0-0,0-0,0-0", "bytes=0-4,1-3,2-2", "bytes=-5", "bytes=-12", "bytes=4-4", "bytes=4-", "bytes=-1", "bytes=0-0",
         "bytes=11-11", "bytes=11-", "bytes=0-0,11-11", "bytes=0-0,4-4", "bytes=9-10,0-0", "bytes=99-100,9-10,0-0",
+        # positions written with 19, 20, 21 and 40 digits: leading zeros in front of small values, and huge first positions
+        # whose low digits would lie inside the file
+        "bytes=0-" + "0" * 17 + "03", "bytes=0-" + "0" * 18 + "03", "bytes=0-" + "0" * 19 + "03", "bytes=0-" + "0" * 38 + "03",
+        "bytes=" + "0" * 19 + "1-" + "0" * 20 + "3", "bytes=-" + "0" * 20 + "2", "bytes=1" + "0" * 18 + "2-", "bytes=1" + "0" * 19 + "2-", "bytes=1" + "0" * 20 + "2-",
+        "bytes=0-1,1" + "0" * 19 + "3-", "bytes=" + "9" * 19 + "-", "bytes=" + "9" * 20 + "1-", "bytes=-" + "9" * 20,
     ]
     sizes = (5, 12) if quick else (5, 12, 13, 100, 101)
     for rng in forms:
